@@ -222,13 +222,20 @@ def str_to_int_unlimited(s: str) -> int:
     return v if not is_negative else -v
 
 
+# the characters of SMT-LIB / Z3 strings are the code points 0 .. 0x2FFFF
+Z3_MAX_CHAR = 0x2FFFF
+
+
 def string_to_z3_literal(s: str) -> str:
     """
     Prepare a Python string for z3.StringVal so that Z3 receives exactly the characters of `s`.
 
     Z3 decodes the escape sequences \\u{h..h} and \\uhhhh inside string literals (z3.StringVal produces them itself for
-    characters outside printable ASCII), so a backslash written by the caller must be escaped too.
+    characters outside printable ASCII), so a backslash written by the caller must be escaped too. Code points Z3
+    cannot represent are refused (their escape sequence would be taken as literal text).
     """
+    if any(ord(c) > Z3_MAX_CHAR for c in s):
+        raise BackendError(f"Z3 strings cannot contain code points above U+{Z3_MAX_CHAR:X}")
     return s.replace("\\", "\\u{5c}")
 
 
